@@ -16,6 +16,7 @@ CALVER = ["calver", "calver-no-context", "calver-context", "calver-base", "calve
           "calver-base-prerelease-post-context", "calver-base-prerelease-post-dev-context"]
 DAY = 86400
 LAST_DAY = cal.days_from_civil(2199, 12, 31)
+FAR = (cal.days_from_civil(9999, 12, 31) + 1) * DAY      # 253402300800 = 10000-01-01T00:00:00Z
 
 
 def work_grid(bins, tz, timestamps):
@@ -33,6 +34,8 @@ def work_grid(bins, tz, timestamps):
             for p, got in zip(cal.PATTERNS, row):
                 n += 1
                 exp = cal.resolve(p, t)
+                if isinstance(got, dict) and "err" in got and t >= FAR:
+                    continue      # beyond 9999-12-31 a refusal is accepted ("for every Unix timestamp ... the resolved value is"): a value, if given, must be right
                 if got != exp:
                     if len(bad) < 40:
                         bad.append(("timestamp-field-differs", "resolve_timestamp(%r, %d) = %r, UTC calendar says %r (TZ=%s)" % (p, t, got, exp, tz), t, p, got))
@@ -209,7 +212,12 @@ def run(ctx):
         if (y % 4 == 0 and y % 100 != 0) or y % 400 == 0:
             ts.append(cal.days_from_civil(y, 2, 29) * DAY + 43200)
     ts += [rng.randrange(0, (LAST_DAY + 1) * DAY) for _ in range(5000 if quick else 300000)]
-    ts = sorted(set(ts))
+    # the statement says "every Unix timestamp": beyond the quantifier's 2199 too - up to year 99999, the five-digit-year boundary, and the i64 / u64 edges
+    far = [rng.randrange((LAST_DAY + 1) * DAY, FAR) for _ in range(1500 if quick else 40000)] + [rng.randrange(FAR, 3093527980800) for _ in range(1500 if quick else 40000)]
+    far += [FAR - 1, FAR, FAR + 1, FAR + 86399, FAR + 86400 * 366, 3093527980799, 3093527980800, 8210266876799, 8210266876800, 10 ** 13, 2 ** 53, 2 ** 62, 2 ** 63 - 1, 2 ** 63, 2 ** 63 + 1,
+            2 ** 64 - 86400, 2 ** 64 - 2, 2 ** 64 - 1]
+    ts = sorted(set(ts + far))
+    ctx.count("instants_beyond_2199", len(set(far)))
     parts = core.split_even(ts, 32)
     jobs = [(ctx.bins, TZS[i % len(TZS)], p) for i, p in enumerate(parts)]
     # a second pass of a sample under a different TZ so that every instant class meets a non-UTC zone
@@ -231,10 +239,12 @@ def run(ctx):
     ncal = 5000 if quick else 50000
     for i in range(ncal):
         t = rng.choice(ts) if rng.random() < 0.7 else rng.randrange(0, (LAST_DAY + 1) * DAY)
+        if t >= 3093527980800:
+            t = t % 3093527980800        # the CLI cases stay within years 1970..99999 (beyond that the resolver may refuse, see work_grid)
         cases.append(("calver", rng.choice(CALVER), t, rng.choice(["semver", "pep440"]), rng.choice(["bumped", "bumped", "last", "both"]), i % len(STATES)))
     for p in cal.PATTERNS:
         for i in range(40 if quick else 600):
-            cases.append(("ts", p, rng.choice(ts), ["bumped", "last", "both"][i % 3]))
+            cases.append(("ts", p, rng.choice(ts) % 3093527980800, ["bumped", "last", "both"][i % 3]))
     rng.shuffle(cases)
     cparts = core.split_even(cases, 32)
     cjobs = [(ctx.bins, TZS[i % len(TZS)], p) for i, p in enumerate(cparts)]
